@@ -18,7 +18,7 @@ EXPLANATION = (
     '(R6) the RPC handler behind Docs::import evaluated on {import, open, other handle calls} x {ok, fails}: success is '
     "reported only after SyncHandle::import_namespace succeeded with the request's capability. (R7) the file-format "
     'migration that runs on open for stores written by iroh-docs 0.94..=0.98 (migrate_redb_v2_tuples::run), evaluated on an'
-    ' old file holding one row per table, carries the capability tables; (R8) Capability::raw -> from_raw evaluated per variant (the stored form reads back as the same variant over the same bytes, kind bytes distinct) and migration 002 evaluated on version-1 tables of 0, 1 and 3 secrets: each becomes a row of the current table keyed by the id derived from the secret and reading back as Write(that secret). (R9) the store actor forwards InsertLocal / DeletePrefix one to one (the store-actor handler evaluated with the fields of the request as named tokens and gates / store / replica calls answered by an oracle, each step also failing in turn: the own fields of the request reach the core function in order on the addressed document, nothing is carried out after a failed step, the reply is the result of that function; the SyncHandle method evaluated: one request of its own kind, addressed to its namespace argument, each field one of its own parameters, the reply of the actor returned). NOT decided: redb persistence itself.'
+    ' old file holding one row per table, carries the capability tables; (R8) Capability::raw -> from_raw evaluated per variant (the stored form reads back as the same variant over the same bytes, kind bytes distinct) and migration 002 evaluated on version-1 tables of 0, 1 and 3 secrets: each becomes a row of the current table keyed by the id derived from the secret and reading back as Write(that secret). (R9) the store actor forwards InsertLocal / DeletePrefix one to one (the store-actor handler evaluated with the fields of the request as named tokens and gates / store / replica calls answered by an oracle, each step also failing in turn: the own fields of the request reach the core function in order on the addressed document, nothing is carried out after a failed step, the reply is the result of that function; the SyncHandle method evaluated: one request of its own kind, addressed to its namespace argument, each field one of its own parameters, the reply of the actor returned). (R10) the RPC handlers doc_set_hash / doc_del evaluated as forwarders (K14). NOT decided: redb persistence itself.'
 )
 ASSUMPTIONS = ["std::mem::replace(self, other) stores other into self", "redb tables are identified by their key/value types"]
 
@@ -439,6 +439,19 @@ def r9(ctx):
     actorfw.claim(ctx, "C07.R9", handlers=("InsertLocal", "DeletePrefix"), clients=("insert_local", "delete_prefix", "export_secret_key"), floor=11)
 
 
+def r10(ctx):
+    """the RPC layer: authoring requests of the public API reach the store actor - and through it Replica::insert /
+    delete_prefix, which demand the write secret - with the own fields of the request; the removed-count is what is answered"""
+    from . import apifw
+    apifw.check_forwarder(ctx, "C07.R10", "doc_set_hash", "SetHashRequest", ["insert_local(req.doc_id,req.author_id,req.key,req.hash,req.size)"], "Ok(SetHashResponse)")
+    apifw.check_forwarder(ctx, "C07.R10", "doc_del", "DelRequest", ["delete_prefix(req.doc_id,req.author_id,req.prefix)"], "Ok(DelResponse(result-of-delete_prefix))")
+    apifw.check_client(ctx, "C07.R10", "api::Doc::set_hash", "SetHashRequest")
+    apifw.check_client(ctx, "C07.R10", "api::Doc::set_bytes", "SetRequest")
+    apifw.check_client(ctx, "C07.R10", "api::Doc::del", "DelRequest")
+    apifw.check_client(ctx, "C07.R10", "api::DocsApi::import_namespace", "ImportRequest", doc_from="arg.capability")
+    ctx.floor("C07.R10", 4)
+
+
 def run(ctx):
     ctx.run_rule("C07.R1", r1)
     ctx.run_rule("C07.R2", r2)
@@ -449,3 +462,4 @@ def run(ctx):
     ctx.run_rule("C07.R7", r7)
     ctx.run_rule("C07.R8", r8)
     ctx.run_rule("C07.R9", r9)
+    ctx.run_rule("C07.R10", r10)
